@@ -213,6 +213,9 @@ Definition binder_ok (n : str) : bool :=
 Definition opt_ty_eqb (o : option ty) (t : ty) : bool :=
   match o with Some u => ty_eqb u t | None => false end.
 
+Fixpoint keys_nodup (l : list str) : bool :=
+  match l with [] => true | x :: r => negb (mem_str x r) && keys_nodup r end.
+
 (* ---------- expressions ---------- *)
 Fixpoint ety (F : list funcdef) (G : tyenv) (e : expr) {struct e} : option ty :=
   let etys := fix etys (es : list expr) : option (list ty) :=
@@ -256,7 +259,8 @@ Fixpoint ety (F : list funcdef) (G : tyenv) (e : expr) {struct e} : option ty :=
               | _ => None end
       | _ :: _ =>
           match t, etyp ps with
-          | TMap u, Some ts => if forallb (ty_eqb u) ts && ty_ann t then Some t else None
+          | TMap u, Some ts =>
+              if forallb (ty_eqb u) ts && ty_ann t && keys_nodup (map fst ps) then Some t else None
           | _, _ => None
           end
       end
@@ -312,6 +316,11 @@ Section Etys.
     match es with
     | [] => Some []
     | x :: r => match ety F G x, etys r with Some t, Some ts => Some (t :: ts) | _, _ => None end
+    end.
+  Fixpoint etyps (ps : list (str * expr)) : option (list ty) :=
+    match ps with
+    | [] => Some []
+    | (_, x) :: r => match ety F G x, etyps r with Some t, Some ts => Some (t :: ts) | _, _ => None end
     end.
 End Etys.
 
@@ -487,18 +496,18 @@ Definition wt_program (P : program) : bool :=
   end.
 
 (* ---------- Stage-1 fragment (what SemSound.v proves sound) ---------- *)
-(* types without maps, and with `any` only at the top: num, string, bool,
-   nested arrays of those, the untyped [] and any *)
+(* types with `any` only at the top: num, string, bool, nested arrays and maps of those,
+   the untyped [] and {}, and any *)
 Fixpoint ty_s1in (t : ty) : bool :=
   match t with
-  | TNum | TStr | TBool | TEmptyArr => true
-  | TArr u => ty_s1in u
+  | TNum | TStr | TBool | TEmptyArr | TEmptyMap => true
+  | TArr u | TMap u => ty_s1in u
   | _ => false
   end.
 Definition ty_s1 (t : ty) : bool := match t with TAny => true | _ => ty_s1in t end.
 
 Definition s1_builtins : list str := Eval compute in map s_
-  ["print"; "sprint"; "read"; "cls"; "sleep"; "len"; "typeof"; "str2num"; "str2bool"; "exit"; "panic";
+  ["print"; "sprint"; "read"; "cls"; "sleep"; "len"; "has"; "del"; "typeof"; "str2num"; "str2bool"; "exit"; "panic";
    "join"; "startswith"; "endswith"; "min"; "max"; "abs"; "sqrt";
    "circle"; "width"; "move"; "line"; "rect"; "color"; "colour"; "stroke"; "fill"; "linecap"; "text"]%string.
 
@@ -506,18 +515,20 @@ Fixpoint s1_expr (e : expr) {struct e} : bool :=
   let s1_exprs := fix go (es : list expr) : bool :=
     match es with [] => true | x :: r => s1_expr x && go r end in
   let s1_opt (o : option expr) : bool := match o with Some x => s1_expr x | None => true end in
+  let s1_pairs := fix go (ps : list (str * expr)) : bool :=
+    match ps with [] => true | (_, x) :: r => s1_expr x && go r end in
   match e with
   | ENum _ | EStr _ | EBool _ => true
   | EVar _ t => ty_s1 t
   | EAny a t => ty_s1in t && s1_expr a
   | EArr t es => ty_s1in t && s1_exprs es
-  | EMap _ _ => false
+  | EMap t ps => ty_s1in t && s1_pairs ps
   | ECall name t args => mem_str name s1_builtins && s1_exprs args
   | EUn _ a => s1_expr a
   | EBin _ t l r => ty_s1in t && s1_expr l && s1_expr r
   | EIndex t l i => ty_s1in t && s1_expr l && s1_expr i
   | ESlice t l lo hi => ty_s1in t && s1_expr l && s1_opt lo && s1_opt hi
-  | EDot _ _ _ => false
+  | EDot t l _ => ty_s1in t && s1_expr l
   | EGroup a => s1_expr a
   | EAssert t a => ty_s1in t && s1_expr a
   end.
@@ -526,6 +537,9 @@ Fixpoint s1_exprs (es : list expr) : bool :=
   match es with [] => true | x :: r => s1_expr x && s1_exprs r end.
 
 Definition s1_opt (o : option expr) : bool := match o with Some x => s1_expr x | None => true end.
+
+Fixpoint s1_pairs (ps : list (str * expr)) : bool :=
+  match ps with [] => true | (_, x) :: r => s1_expr x && s1_pairs r end.
 
 Fixpoint s1_stmt (s : stmt) {struct s} : bool :=
   let s1_stmts := fix go (l : list stmt) : bool :=
